@@ -402,7 +402,8 @@ fn scenario(seed: u64, k: u64, out: &Out) {
                 (Some(c), 0) if c <= tip => (REL | rng.range(0, tip - c), "since-relative-number-satisfied", true),
                 (Some(c), 1) => (REL | (tip.saturating_sub(c) + rng.range(10, 1000)), "since-relative-number-unsatisfied", false),
                 (_, 4) => (EPOCH | ckb_types::core::EpochNumberWithFraction::new(tip_epoch.number() + rng.range(3, 50), 0, 1).full_value(), "since-absolute-epoch-unsatisfied", false),
-                (_, 5) => (EPOCH | ckb_types::core::EpochNumberWithFraction::new(tip_epoch.number().saturating_sub(rng.range(1, 3)).min(tip_epoch.number()), 0, 1).full_value(), "since-absolute-epoch-satisfied", tip_epoch.number() >= 1),
+                // (an epoch at or before the tip's epoch, fraction 0/1: satisfied whatever the tip's epoch is, also in epoch 0)
+                (_, 5) => (EPOCH | ckb_types::core::EpochNumberWithFraction::new(tip_epoch.number().saturating_sub(rng.range(1, 3)), 0, 1).full_value(), "since-absolute-epoch-satisfied", true),
                 _ => (rng.range(0, tip), "since-absolute-number-satisfied", true),
             };
             let mut i2: Vec<CellInput> = tx.inputs().into_iter().collect();
